@@ -81,3 +81,52 @@ class TtaFromJson:
                             and result.features[k].location.end == codons[k].start + 3
                             for k in range(len(result.codon_starts)))),
     }
+
+
+# ---- C09: where a TTA codon of a gene is marked -------------------------------------------------------------
+from contracts.locations import FL, CL, wf   # noqa: E402
+
+GENE_LOC = Rec("Feature", label="GeneForTta", location=OneOf(FL, CL(2, 2)))
+TTA_RESULTS = Rec("TTAResults", label="EmptyTtaResults", codon_starts=Const([]), features=Const([]))
+
+
+@spec
+def nth_base(location, n):
+    """the record coordinate of the n-th transcribed base of a gene of one or two exons (parts are stored in
+    transcription order: ascending on the forward strand, descending on the reverse strand)"""
+    first = location.parts[0]
+    size = first.end - first.start
+    if n < size:
+        return first.start + n if first.strand != -1 else first.end - 1 - n
+    second = location.parts[len(location.parts) - 1]
+    return second.start + (n - size) if second.strand != -1 else second.end - 1 - (n - size)
+
+
+@spec
+def gene_of_more_than_one_exon(self, feature, offset):
+    return len(feature.location.parts) > 1
+
+
+@contract(f"{TTA_FILE}::TTAResults.new_feature_from_other", props=["C09"])
+class TtaMarkerPosition:
+    """The marker of the codon at nucleotide offset `offset` of a gene covers exactly the three bases that encode it,
+    on the gene's strand. (Open finding C09-F2: for a gene of more than one exon the marker is placed as if the gene
+    had no introns - that class is split off and reported, the clause is proved for single-exon genes.)"""
+    params = {"self": TTA_RESULTS, "feature": GENE_LOC, "offset": Int}
+
+    def requires(self, feature, offset):
+        total = sum(p.end - p.start for p in feature.location.parts)
+        return (wf(feature.location) and all(p.strand == feature.location.parts[0].strand and p.strand != 0
+                                             for p in feature.location.parts)
+                and 0 <= offset and offset + 3 <= total)
+
+    known = {"C09-F2": gene_of_more_than_one_exon}
+    ensures = {
+        "marker-is-exactly-the-encoding-bases-in-order": lambda feature, offset, result:
+            result.location.end == result.location.start + 3
+            and result.location.strand == feature.location.parts[0].strand
+            and all(nth_base(feature.location, offset + k)
+                    == (result.location.start + k if result.location.strand != -1 else result.location.end - 1 - k)
+                    for k in range(3)),
+        "recorded-once": lambda self: len(self.features) == 1 and len(self.codon_starts) == 1,
+    }
